@@ -288,7 +288,13 @@ static bool gets_ok(const BgPtr &b, const List &l)
   {
     std::string v = "<unset>";
     Buf k(e.first);
-    if (!b->GetValue(k.view(), v) || v != e.second)
+    if (!b->GetValue(k.view(), v))
+      return false;
+    // a key listed once answers its value; a key an extracted baggage lists several times answers one of them
+    bool among = false;
+    for (auto &m : l)
+      among = among || (m.first == e.first && m.second == v);
+    if (!among)
       return false;
     std::string flipped = e.first;
     for (auto &c : flipped)
@@ -377,6 +383,23 @@ static bool match_list(const Conc &cz, const json &pat, const List &got, const B
       p.push_back({false, {cz.str(e[0]), cz.str(e[1])}});
   }
   return match_pat(p, 0, o, 0);
+}
+
+// Set / Delete results are compared as (multi)sets - the position of entries afterwards is not promised: the
+// entries whose key is listed once in the pattern exactly once each, the band for the other repeated keys
+static bool match_unordered(const Conc &cz, const json &pat, const List &got, const BgPtr &bag)
+{
+  List rest, want = cz.list(pat["u"]);
+  json p2 = {{"u", json::array()}, {"d", pat["d"]}};
+  List banded;
+  for (auto &g : got)
+  {
+    bool rep = false;
+    for (auto &d : pat["d"])
+      rep = rep || cz.str(d["k"]) == g.first;
+    (rep ? banded : rest).push_back(g);
+  }
+  return same_set(rest, want) && match_list(cz, p2, banded, bag);
 }
 
 // does the real header text realise the expected token sequence?
@@ -544,6 +567,29 @@ static int replay(const char *path)
           took.push_back("exp");
         }
       }
+      else if (op == "xdel" || op == "xset")
+      {
+        // Set / Delete on the baggage that came out of an extraction (it may list a key several times)
+        std::string ks = cz.str(st["k"]), vs = cz.str(st["v"]);
+        Buf k(ks), v(vs);
+        BgPtr src = objs[st["o"].get<size_t>() - 1];
+        BgPtr nw  = op == "xdel" ? src->Delete(k.view()) : src->Set(k.view(), v.view());
+        List g    = entries(nw);
+        std::string gv = "<unset>";
+        bool found     = nw->GetValue(k.view(), gv);
+        if (!match_unordered(cz, st["exp"], g, nw))
+          fail(op + " on an extracted baggage: the result does not hold exactly the other entries" +
+                   (op == "xset" ? " and the new one, once" : "") + " (no entry with the key may survive)",
+               g, {{"key", show(ks)}, {"source", show_list(entries(src))}});
+        else if (op == "xdel" ? found : (!found || gv != vs))
+          fail(op + " on an extracted baggage: GetValue of the key disagrees", g, {{"key", show(ks)}, {"GetValue", show(gv)}});
+        else
+        {
+          objs.push_back(nw);
+          seen.push_back(g);
+          took.push_back("exp");
+        }
+      }
       else if (op == "setbad")
       {
         Buf k(cz.str(st["k"])), v(cz.str(st["v"]));
@@ -625,7 +671,14 @@ static int replay(const char *path)
         else if (!x.other_ok)
           fail("Extract disturbed the caller's context", x.got, {{"header", show(hdr)}});
         else
+        {
           took.push_back(t);
+          if (st.contains("push") && st["push"].get<bool>())
+          {
+            objs.push_back(x.bag);  // operated on by the following steps
+            seen.push_back(x.got);
+          }
+        }
       }
       else
       {
